@@ -13,12 +13,12 @@ def poolOfJ (j : Json) : Except String Pool := do
 
 def posOfJ (j : Json) : Except String Pos := do
   pure { lower := ← jInt j "lower", upper := ← jInt j "upper", pending0 := ← jRat j "p0", pending1 := ← jRat j "p1",
-         liq := ← jInt j "liq", lowerPrice := ← jRat j "lp", upperPrice := ← jRat j "up", initPrice := ← jRat j "ip",
+         liq := ← jInt j "liq", liqDec := (jBool j "ld").toOption.getD false, lowerPrice := ← jRat j "lp", upperPrice := ← jRat j "up", initPrice := ← jRat j "ip",
          transferred := ← jBool j "tr" }
 
 def posToJ (p : Pos) : Json :=
   Json.mkObj [("lower", intJ p.lower), ("upper", intJ p.upper), ("p0", ratJ p.pending0), ("p1", ratJ p.pending1),
-    ("liq", intJ p.liq), ("lp", ratJ p.lowerPrice), ("up", ratJ p.upperPrice), ("ip", ratJ p.initPrice),
+    ("liq", intJ p.liq), ("ld", .bool p.liqDec), ("lp", ratJ p.lowerPrice), ("up", ratJ p.upperPrice), ("ip", ratJ p.initPrice),
     ("tr", .bool p.transferred)]
 
 def rowOfJ (j : Json) : Except String Row := do
